@@ -28,13 +28,16 @@ VARIABLES
   memoCmd,  \* <<base script, command index>> -> response class in the clean variant
   memoOut,  \* <<script, cfg>> -> [outh, status, io]
   popped,   \* names (of terms and definitions) removed by a pop in this run
-  rejSeen   \* a command has been rejected earlier in this run
+  rejSeen,  \* a command has been rejected earlier in this run
+  unsatAt,  \* depths at which a check-sat answered unsat and that are still on the stack
+  poppedUnsat, \* a level on which check-sat answered unsat has been popped (labels records only)
+  rejNamed  \* a rejected command contained a :named annotation (labels records only)
 
-tvars == <<l, viol, run, memo, memoCmd, memoOut, popped, rejSeen>>
+tvars == <<l, viol, run, memo, memoCmd, memoOut, popped, rejSeen, unsatAt, poppedUnsat, rejNamed>>
 vars == <<svars, tvars>>
 
 Ev == Tr[l]
-NoRun == [sid |-> "", cfg |-> "", kind |-> "", io |-> "", base |-> "", intl |-> FALSE, dup |-> FALSE]
+NoRun == [sid |-> "", cfg |-> "", kind |-> "", io |-> "", base |-> "", intl |-> FALSE, dup |-> FALSE, logic |-> ""]
 
 \* ---- reporting --------------------------------------------------------
 \* features of the current state used only to attribute known findings
@@ -42,8 +45,8 @@ RECURSIVE HasTermIte(_)
 HasTermIte(t) == (tt[t].k = "a" /\ tt[t].op = "ite" /\ tt[t].s # "Bool")
                  \/ \E i \in DOMAIN tt[t].a : HasTermIte(tt[t].a[i])
 IteNamed == \E n \in DOMAIN names : HasTermIte(names[n].t)
-V(p, why) == [p |-> p, l |-> l, why |-> why, sid |-> run.sid, cfg |-> run.cfg,
-              kind |-> run.kind, afterReject |-> rejSeen, dup |-> run.dup, iteNamed |-> IteNamed]
+V(p, why) == [p |-> p, l |-> l, why |-> why, sid |-> run.sid, cfg |-> run.cfg, logic |-> run.logic,
+              kind |-> run.kind, afterReject |-> rejSeen, dup |-> run.dup, iteNamed |-> IteNamed, poppedUnsat |-> poppedUnsat, rejNamed |-> rejNamed]
 Report(vs) == \A v \in vs : PrintT("@@VIOL " \o ToJson(v))
 \* vs is a set of violation records
 Note(vs) == /\ Report(vs) /\ viol' = viol + Cardinality(vs)
@@ -55,6 +58,7 @@ If(c, v) == IF c THEN {v} ELSE {}
 Init ==
   /\ l = 1 /\ viol = 0 /\ run = NoRun
   /\ memo = <<>> /\ memoCmd = <<>> /\ memoOut = <<>> /\ popped = {} /\ rejSeen = FALSE
+  /\ unsatAt = {} /\ poppedUnsat = FALSE /\ rejNamed = FALSE
   /\ ScriptInit(<<>>, <<>>)
   /\ TLCSet(2, 0)
 
@@ -66,15 +70,16 @@ TrFam ==
   /\ inited' = FALSE /\ opts' = DefaultOpts /\ stack' = << <<>> >> /\ names' = <<>>
   /\ defs' = <<>> /\ mode' = "start" /\ model' = <<>> /\ errs' = 0
   /\ memo' = <<>> /\ memoCmd' = <<>> /\ memoOut' = <<>> /\ popped' = {} /\ rejSeen' = FALSE
+  /\ unsatAt' = {} /\ poppedUnsat' = FALSE /\ rejNamed' = FALSE
   /\ run' = NoRun /\ viol' = viol /\ TLCSet(2, l)
 
 TrRun ==
   /\ Ev.e = "Run" /\ Step
   /\ run' = [sid |-> Ev.sid, cfg |-> Ev.cfg, kind |-> Ev.kind, io |-> Ev.io,
-             base |-> Ev.base, intl |-> Ev.intl, dup |-> Ev.dup]
+             base |-> Ev.base, intl |-> Ev.intl, dup |-> Ev.dup, logic |-> Ev.logic]
   /\ inited' = FALSE /\ opts' = DefaultOpts /\ stack' = << <<>> >> /\ names' = <<>>
   /\ defs' = <<>> /\ mode' = "start" /\ model' = <<>> /\ errs' = 0
-  /\ popped' = {} /\ rejSeen' = FALSE
+  /\ popped' = {} /\ rejSeen' = FALSE /\ unsatAt' = {} /\ poppedUnsat' = FALSE /\ rejNamed' = FALSE
   /\ UNCHANGED <<tt, dom, memo, memoCmd, memoOut>> /\ viol' = viol /\ TLCSet(2, l)
 
 \* ---- clean-variant comparison (C19) -----------------------------------
@@ -99,8 +104,9 @@ MustRejectViol == If(Ev.must = "reject" /\ Ev.r # "error", V("C18", "illegal com
 TrReject ==
   /\ Ev.e = "Cmd" /\ Ev.r = "error" /\ Step /\ Reject
   /\ rejSeen' = TRUE
+  /\ rejNamed' = (rejNamed \/ Ev.hasNamed)
   /\ CmdMemoUpd("error")
-  /\ UNCHANGED <<run, memo, memoOut, popped>>
+  /\ UNCHANGED <<run, memo, memoOut, popped, unsatAt, poppedUnsat>>
   /\ Note( CmdMemoViol("error") \cup
            \* a request the properties require to be accepted
            If( /\ Ev.c = "assert" /\ Ev.wf /\ NamesFresh(Ev.nm, Ev.inner)
@@ -119,39 +125,39 @@ TrSimple ==  \* commands without effect on the modelled state
   /\ Ev.c \in {"declare", "declare-sort", "set-info", "get-info", "get-option", "echo",
                "exit", "get-proof", "other"}
   /\ Silent /\ CmdMemoUpd(Ev.r)
-  /\ UNCHANGED <<run, memo, memoOut, popped, rejSeen>>
+  /\ UNCHANGED <<run, memo, memoOut, popped, rejSeen, unsatAt, poppedUnsat, rejNamed>>
   /\ Note(MustRejectViol \cup CmdMemoViol(Ev.r))
 
 TrBad ==  \* text that is not a well-formed command: must be diagnosed, state unchanged
   /\ IsCmd("bad") /\ Ev.r # "error" /\ Step /\ Silent
-  /\ UNCHANGED <<run, memo, memoCmd, memoOut, popped, rejSeen>>
+  /\ UNCHANGED <<run, memo, memoCmd, memoOut, popped, rejSeen, unsatAt, poppedUnsat, rejNamed>>
   /\ Note({V("C18", "malformed input not diagnosed")})
 
 TrSetLogic ==
   /\ IsCmd("set-logic") /\ Ev.r # "error" /\ Step /\ SetLogicEff /\ CmdMemoUpd(Ev.r)
-  /\ UNCHANGED <<run, memo, memoOut, popped, rejSeen>>
+  /\ UNCHANGED <<run, memo, memoOut, popped, rejSeen, unsatAt, poppedUnsat, rejNamed>>
   /\ Note(MustRejectViol)
 
 TrSetOption ==
   /\ IsCmd("set-option") /\ Ev.r # "error" /\ Step /\ SetOptionEff(Ev.k, Ev.v) /\ CmdMemoUpd(Ev.r)
-  /\ UNCHANGED <<run, memo, memoOut, popped, rejSeen>>
+  /\ UNCHANGED <<run, memo, memoOut, popped, rejSeen, unsatAt, poppedUnsat, rejNamed>>
   /\ Note(MustRejectViol)
 
 TrDefine ==
   /\ IsCmd("define") /\ Ev.r # "error" /\ Step /\ DefineEff(Ev.nm, Ev.p, Ev.b) /\ CmdMemoUpd(Ev.r)
-  /\ UNCHANGED <<run, memo, memoOut, popped, rejSeen>>
+  /\ UNCHANGED <<run, memo, memoOut, popped, rejSeen, unsatAt, poppedUnsat, rejNamed>>
   /\ Note(MustRejectViol \cup
           If(~DefineFresh(Ev.nm), V("C18", "duplicate definition accepted")))
 
 TrAssert ==
   /\ IsCmd("assert") /\ Ev.r # "error" /\ Step /\ AssertEff(Ev.t, Ev.nm, Ev.inner) /\ CmdMemoUpd(Ev.r)
-  /\ UNCHANGED <<run, memo, memoOut, popped, rejSeen>>
+  /\ UNCHANGED <<run, memo, memoOut, popped, rejSeen, unsatAt, poppedUnsat, rejNamed>>
   /\ Note(MustRejectViol \cup CmdMemoViol(Ev.r) \cup
           If(~NamesFresh(Ev.nm, Ev.inner), V("C18", "duplicate name accepted")))
 
 TrPush ==
   /\ IsCmd("push") /\ Ev.r # "error" /\ Step /\ PushEff(Ev.n) /\ CmdMemoUpd(Ev.r)
-  /\ UNCHANGED <<run, memo, memoOut, popped, rejSeen>>
+  /\ UNCHANGED <<run, memo, memoOut, popped, rejSeen, unsatAt, poppedUnsat, rejNamed>>
   /\ Note(MustRejectViol \cup CmdMemoViol(Ev.r) \cup
           If(~PushLegal(Ev.n), V("C18", "illegal push accepted")))
 
@@ -162,7 +168,9 @@ TrPop ==
           /\ popped' = popped \cup { x \in DOMAIN names : names[x].lvl > Depth - Ev.n }
                               \cup { x \in DOMAIN defs : defs[x].lvl > Depth - Ev.n }
      ELSE Silent /\ popped' = popped
-  /\ UNCHANGED <<run, memo, memoOut, rejSeen>>
+  /\ unsatAt' = IF PopLegal(Ev.n) THEN { d \in unsatAt : d <= Depth - Ev.n } ELSE unsatAt
+  /\ poppedUnsat' = (poppedUnsat \/ (PopLegal(Ev.n) /\ \E d \in unsatAt : d > Depth - Ev.n))
+  /\ UNCHANGED <<run, memo, memoOut, rejSeen, rejNamed>>
   /\ Note(MustRejectViol \cup CmdMemoViol(Ev.r) \cup
           If(~PopLegal(Ev.n), V("C18", "illegal pop accepted")))
 
@@ -186,13 +194,14 @@ TrCheckSat ==
               If(r = "sat" /\ v = "unsat", V("C02", "kernel refutes the active assertions")) \cup
               If(r = "timeout" /\ ~run.intl, V("C30", "check-sat did not return")) \cup
               MemoViol(r) \cup CmdMemoViol(r) \cup MustRejectViol )
-  /\ UNCHANGED <<run, memoOut, popped, rejSeen>>
+  /\ unsatAt' = IF Ev.r = "unsat" THEN unsatAt \cup {Depth} ELSE unsatAt
+  /\ UNCHANGED <<run, memoOut, popped, rejSeen, poppedUnsat, rejNamed>>
 
 \* get-model: C03
 TrGetModel ==
   /\ IsCmd("get-model") /\ Ev.r # "error" /\ Step
   /\ GetModelEff(IF Ev.pok THEN Ev.m ELSE <<>>) /\ CmdMemoUpd(Ev.r)
-  /\ UNCHANGED <<run, memo, memoOut, popped, rejSeen>>
+  /\ UNCHANGED <<run, memo, memoOut, popped, rejSeen, unsatAt, poppedUnsat, rejNamed>>
   /\ Note( MustRejectViol \cup
            If(~Ev.pok, V("C17", "printed model is not well-formed SMT-LIB")) \cup
            IF Ev.pok /\ Ev.mon /\ mode = "sat"
@@ -202,7 +211,7 @@ TrGetModel ==
 
 TrGetValue ==
   /\ IsCmd("get-value") /\ Ev.r # "error" /\ Step /\ Silent /\ CmdMemoUpd(Ev.r)
-  /\ UNCHANGED <<run, memo, memoOut, popped, rejSeen>>
+  /\ UNCHANGED <<run, memo, memoOut, popped, rejSeen, unsatAt, poppedUnsat, rejNamed>>
   /\ Note( MustRejectViol \cup
            If(~Ev.pok, V("C17", "printed values are not well-formed SMT-LIB")) \cup
            IF Ev.pok /\ Ev.mon /\ mode = "sat" /\ model # <<>>
@@ -211,7 +220,7 @@ TrGetValue ==
 
 TrGetAssignment ==
   /\ IsCmd("get-assignment") /\ Ev.r # "error" /\ Step /\ Silent /\ CmdMemoUpd(Ev.r)
-  /\ UNCHANGED <<run, memo, memoOut, popped, rejSeen>>
+  /\ UNCHANGED <<run, memo, memoOut, popped, rejSeen, unsatAt, poppedUnsat, rejNamed>>
   /\ Note( MustRejectViol \cup
            { V("C21", [assignmentMentions |-> Ev.as[i].nm]) :
                 i \in { j \in DOMAIN Ev.as : Ev.as[j].nm \notin DOMAIN names } } \cup
@@ -224,12 +233,12 @@ TrGetAssignment ==
 \* get-unsat-core: C06, C07, C21
 TrGetUnsatCore ==
   /\ IsCmd("get-unsat-core") /\ Ev.r # "error" /\ Step /\ Silent /\ CmdMemoUpd(Ev.r)
-  /\ UNCHANGED <<run, memo, memoOut, popped, rejSeen>>
+  /\ UNCHANGED <<run, memo, memoOut, popped, rejSeen, unsatAt, poppedUnsat, rejNamed>>
   /\ Note( MustRejectViol \cup
            IF ~Ev.pok THEN {V("C17", "printed core is not well-formed SMT-LIB")}
            ELSE IF mode # "unsat" THEN {}
            ELSE IF Ev.full
-           THEN If(~FullCoreCurrent(Ev.fs), V("C06", "printed formula is not a current assertion")) \cup
+           THEN If(Ev.mon /\ ~FullCoreCurrent(Ev.fs, Ev.fx), V("C06", "printed formula is not a current assertion")) \cup
                 If(Ev.mon /\ ~FullCoreUnsat(Ev.fs, Ev.h), V("C06", "printed formulas are satisfiable")) \cup
                 If(Ev.mon /\ opts.mincores = "true" /\ ~FullCoreIrreducible(Ev.fs, Ev.hm),
                    V("C07", "a printed formula is redundant"))
@@ -245,7 +254,7 @@ TrGetUnsatCore ==
 \* get-interpolants: C08, C09
 TrGetInterpolants ==
   /\ IsCmd("get-interpolants") /\ Ev.r # "error" /\ Step /\ Silent /\ CmdMemoUpd(Ev.r)
-  /\ UNCHANGED <<run, memo, memoOut, popped, rejSeen>>
+  /\ UNCHANGED <<run, memo, memoOut, popped, rejSeen, unsatAt, poppedUnsat, rejNamed>>
   /\ Note( MustRejectViol \cup
            IF ~Ev.pok THEN {V("C17", "printed interpolants are not well-formed SMT-LIB")}
            ELSE IF ~(\A g \in DOMAIN Ev.groups : GroupLegal(Ev.groups[g]))
@@ -271,7 +280,7 @@ TrExit ==
   /\ memoOut' = IF Ev.det /\ OutKey \notin DOMAIN memoOut
                 THEN (OutKey :> [outh |-> Ev.outh, status |-> Ev.status, io |-> run.io]) @@ memoOut
                 ELSE memoOut
-  /\ UNCHANGED <<svars, run, memo, memoCmd, popped, rejSeen>>
+  /\ UNCHANGED <<svars, run, memo, memoCmd, popped, rejSeen, unsatAt, poppedUnsat, rejNamed>>
   /\ Note( If(Ev.sig # 0, V("C18", [signal |-> Ev.sig])) \cup
            If(Ev.san, V("C18", "sanitizer report")) \cup
            If(Ev.to /\ ~Ev.pending, V("C18", "script without pending check-sat did not terminate")) \cup
